@@ -16,6 +16,7 @@ import (
 	"os"
 	"sync"
 	"sync/atomic"
+	"syscall"
 	"time"
 
 	"github.com/IrineSistiana/mosdns/v5/pkg/pool"
@@ -37,7 +38,7 @@ type caseT struct {
 	Seq     int    `json:"seq"`
 	Flags   uint16 `json:"udp_reply_flags"`
 	Pad     int    `json:"udp_reply_pad"` // -1: the UDP reply is a bare 12-byte header
-	TCPMode string `json:"tcp_mode"` // answer | close | none | garbage | slowclose
+	TCPMode string `json:"tcp_mode"`      // answer | close | none | garbage | slowclose
 	ID      uint16 `json:"caller_id"`
 	// abandoned-retry sequences: the TCP side answers after TCPDelayMs, the caller's
 	// context lasts CtxMs (0 = 5 s)
@@ -61,13 +62,14 @@ type obs struct {
 }
 
 type server struct {
-	mode  string // tcp behaviour of this server
-	pc    net.PacketConn
-	ln    net.Listener
-	addr  string
-	mu    sync.Mutex
-	cases map[int]*caseT
-	obs   map[int]*obs
+	mode   string // tcp behaviour of this server
+	pc     net.PacketConn
+	ln     net.Listener
+	holdFd int // mode "none": bound, not listening tcp socket that keeps the port
+	addr   string
+	mu     sync.Mutex
+	cases  map[int]*caseT
+	obs    map[int]*obs
 }
 
 func (s *server) get(seq int) (*caseT, *obs) {
@@ -85,10 +87,21 @@ func newServer(mode string) (*server, error) {
 		}
 		port := pc.LocalAddr().(*net.UDPAddr).Port
 		if mode == "none" {
-			// make sure nothing listens on the TCP port: bind and close it
-			if l, err := net.Listen("tcp", fmt.Sprintf("127.0.0.1:%d", port)); err == nil {
-				l.Close()
+			// Nothing may listen on the TCP port for as long as this server lives: a
+			// socket that is bound but never listens keeps the port (connections to
+			// it are reset) - a port that was only probed and released can be handed
+			// to any other process on the machine, whose server then answers.
+			fd, err := syscall.Socket(syscall.AF_INET, syscall.SOCK_STREAM|syscall.SOCK_CLOEXEC, 0)
+			if err != nil {
+				pc.Close()
+				return nil, err
 			}
+			if err := syscall.Bind(fd, &syscall.SockaddrInet4{Port: port, Addr: [4]byte{127, 0, 0, 1}}); err != nil {
+				syscall.Close(fd)
+				pc.Close()
+				continue
+			}
+			s.holdFd = fd
 			s.pc, s.addr = pc, fmt.Sprintf("127.0.0.1:%d", port)
 			break
 		}
